@@ -340,3 +340,52 @@ def trim_predicates(vc):
     full_w = (c + 1) * P['tw'] <= P['W']
     vc.ensure('C19/split_array/trim/t_trim-keeps-exactly-full-height-tiles', eq(res[0], full_h))
     vc.ensure('C19/split_array/trim/f_trim-keeps-exactly-full-width-tiles', eq(res[1], full_w))
+
+
+@contract('C19', 'split_fil_writes_one_file_per_piece', functions=[SU + ':split_fil'])
+def split_fil_writes(vc):
+    """split_fil: exactly one write_to_fil call per yielded piece, piece i to the i-th returned name, in order; names are returned in order.
+    (What blimpy puts into the file is outside the contract; an existing file must not change what is written.)"""
+    npieces = Int('pieces')
+    vc.assume(npieces >= 0)
+    log = {'writes': 0, 'ordered': True, 'names': []}
+    seen = {}
+
+    def make_piece(j):
+        w = I.SObj(None, {'piece': j}, tag='Waterfall')
+
+        def write_to_fil(interp, fn, *a, **k):
+            log['ordered'] = And(log['ordered'], eq(w.fields['piece'], log['writes'])) if not isinstance(log['ordered'], bool) or True else log['ordered']
+            log['writes'] = log['writes'] + 1
+            log['last_name'] = fn
+            return None
+        w.fields['write_to_fil'] = write_to_fil
+        return w
+
+    def gen_contract(interp, clo, args, kwargs):
+        seen['args'] = (args, kwargs)
+        return SList(npieces, make_piece)
+    vc.interp.call_specs[SU + ':split_waterfall_generator'] = gen_contract
+    vc.interp.lib['os.makedirs'] = lambda interp, *a, **k: None
+    vc.interp.lib['os.path.exists'] = lambda interp, *a, **k: CTX.fresh('file_exists', 'bool')     # any earlier content of the directory
+
+    class Loop:
+        def havoc(self, interp, env, k, phase):
+            env.set('split_fns', SList(k, lambda j: ('name', j)))
+            log['writes'] = k
+            for nm in ('i', 'waterfall', 'output_fn'):
+                env.vars.pop(nm, None)
+
+        def inv(self, interp, env, k):
+            fns = env.get('split_fns')
+            return And(eq(seq_len(fns), k), eq(log['writes'], k), log['ordered'])
+    vc.interp.loop_specs[(SU + ':split_fil', 0)] = Loop()
+    fch, tch, sh = Int('fchans'), Int('tchans'), Int('f_shift')
+    out = vc.call(SU + ':split_fil', 'obs.fil', 'outdir', fch, tchans=tch, f_shift=sh)
+    vc.cover('reachable')
+    vc.ensure('C19/split_fil/exc/none', out.ok)
+    if not out.ok:
+        return
+    a, kw = seen['args']
+    vc.ensure('C19/split_fil/pre@callsite/arguments-passed-through', And(a[0] == 'obs.fil', a[1] is fch, kw.get('tchans') is tch, kw.get('f_shift') is sh))
+    vc.ensure('C19/split_fil/post/one-write-per-piece-in-order-and-one-name-per-piece', And(eq(log['writes'], npieces), eq(seq_len(out.value), npieces), log['ordered']))
